@@ -288,7 +288,7 @@ vec_reserve_grow!(vec_reserve_grow_9, 9);
 vec_reserve_grow!(vec_reserve_grow_3, 3);
 
 counting! {
-    // @h props=C04,C13,C16 tier=quick group=step allow=capacity_overflow|raw_vec|handle_error|overflow must_fail=. note=reserve_with_unrepresentable_total_must_not_return(inline_vec)
+    // @h props=C04,C13,C16 tier=quick group=step allow=^overflow.@|capacity_overflow|raw_vec|handle_error|core::option::expect_failed must_fail=. note=reserve_with_unrepresentable_total_must_not_return(inline_vec)
     pub fn vec_reserve_overflow() {
         unsafe {
             let (mut m, g) = st_vec();
@@ -429,7 +429,7 @@ counting! {
 }
 
 counting! {
-    // @h props=C04,C13,C16 tier=quick group=step allow=overflow|capacity_overflow|raw_vec|handle_error|core::option::expect_failed must_fail=. note=reserve_with_unrepresentable_total_must_not_return(shared_form)
+    // @h props=C04,C13,C16 tier=quick group=step allow=^overflow.@|capacity_overflow|raw_vec|handle_error|core::option::expect_failed must_fail=. note=reserve_with_unrepresentable_total_must_not_return(shared_form)
     pub fn arc_reserve_overflow() {
         unsafe {
             let (mut m, g) = st_arc(false);
@@ -1082,7 +1082,7 @@ ooc!(ooc_advance_mut, st_vec(), |m, g| {
     kani::assume(n > g.cap - g.len);
     BufMut::advance_mut(&mut m, n);
 });
-// @h props=C13,C02,C04 tier=quick group=ooc allow=overflow|capacity_overflow|raw_vec|handle_error must_fail=. note=BytesMut::resize(len_beyond_isize::MAX)
+// @h props=C13,C02,C04 tier=quick group=ooc allow=^overflow.@|capacity_overflow|raw_vec|handle_error|core::option::expect_failed must_fail=. note=BytesMut::resize(len_beyond_isize::MAX)
 ooc!(ooc_resize_huge, st_vec(), |m, g| {
     let n: usize = kani::any();
     kani::assume(n > isize::MAX as usize);
